@@ -343,6 +343,11 @@ theorem domOK_exec (s : Srv) (c : Cmd) (hc : csCmd c = true) (h : DomOK s.ks) : 
           · simp only [hc1, if_false]; exact a
         | _ => exact h
       · simpa [Srv.exec, hl] using h
+    | some .unlock, [tok], _ =>
+      rcases exec_unlock_cases s k0 tok with h' | h' | ⟨_, h'⟩ <;> rw [h']
+      · exact h
+      · exact h
+      · exact domOK_delMany h _
   | set k v px c => exact domOK_execPrim s _ hc h
   | unlink ks => exact domOK_execPrim s _ hc h
   | pexpire k ms => exact domOK_execPrim s _ hc h
@@ -1020,23 +1025,6 @@ theorem getMany_eq_server (st : St) (ha : Agree st) (i : Nat) (ks : List String)
       | val x => simp only [agreeEntry] at this; simp [this]
       | absent => simp only [agreeEntry] at this; simp [this]
 
-/-- the commands for which preservation of the quiescent-point invariant is proved -/
-def Covered (isEnc : String → Bool) : Op → Prop
-  | .get _ _ => True
-  | .exists_ _ _ => True
-  | .set _ _ v _ _ => (match v with | .int _ => True | .obj h => isEnc h = true)
-  | .delete _ _ => True
-  | .getMany _ _ => True
-  | .incr _ _ _ ttl => pxOf ttl = none            -- (the TTL-arming variant goes through the Lua script: not yet covered)
-  | .deleteMany _ _ => True
-  | .deleteMatch _ _ => True
-  | .expire _ _ ms => 0 < ms                      -- (`expire(k, 0)` deletes the key on the server: outside the alphabet)
-  | .clear _ => True
-  | .drop _ => True
-  | .reconnect _ => True
-  | .adv _ => True
-  | _ => False
-
 /-- the full invariant carried along a history -/
 def Inv2 (st : St) : Prop := Inv st ∧ DomOK st.srv.ks
 
@@ -1048,74 +1036,10 @@ theorem domOK_adv {s : KS} (h : DomOK s) (dt : Nat) : DomOK (s.adv dt) := by
   | none => simp [hm] at hk
   | some e => rfl
 
-theorem qstep_isEnc (st : St) (op : Op) (hc : Covered st.isEnc op) : (qstep st op).1.isEnc = st.isEnc := by
-  cases op <;> simp [Covered] at hc <;> simp only [qstep, deliverAll, step] <;> (repeat' split) <;> rfl
-
-theorem inv2_qstep (st : St) (h : Inv2 st) (op : Op) (hc : Covered st.isEnc op) : Inv2 (qstep st op).1 := by
-  obtain ⟨hinv, hdom⟩ := h
-  cases op with
-  | get i k =>
-    refine ⟨inv_get st hinv i k, ?_⟩
-    simp only [qstep, deliverAll, step]; (repeat' split) <;> exact hdom
-  | exists_ i k =>
-    refine ⟨inv_exists st hinv i k, ?_⟩
-    simp only [qstep, deliverAll, step]; (repeat' split) <;> exact hdom
-  | set i k v ttl cond =>
-    have hdec : Dec st v := by cases v <;> simpa [Covered, Dec] using hc
-    refine ⟨inv_set st hinv i k v ttl cond hdec, ?_⟩
-    simp only [qstep, deliverAll, step]
-    split <;> exact domOK_exec _ _ rfl hdom
-  | delete i k =>
-    refine ⟨inv_delete st hinv i k, ?_⟩
-    simp only [qstep, deliverAll, step]
-    exact domOK_exec _ _ rfl hdom
-  | getMany i ks => exact ⟨inv_getMany st hinv i ks, hdom⟩
-  | incr i k b ttl =>
-    have hp : pxOf ttl = none := hc
-    refine ⟨inv_incr st hinv i k b ttl hp, ?_⟩
-    simp only [qstep, deliverAll, step, hp]
-    (repeat' split) <;> exact domOK_exec _ _ rfl hdom
-  | deleteMany i ks =>
-    refine ⟨inv_deleteMany st hinv i ks, ?_⟩
-    simp only [qstep, deliverAll, step]
-    split
-    · exact hdom
-    · exact domOK_exec _ _ rfl hdom
-  | deleteMatch i pat =>
-    refine ⟨inv_deleteMatch st hinv i pat, ?_⟩
-    simp only [qstep, deliverAll, step]
-    split <;> exact domOK_exec _ _ rfl hdom
-  | expire i k ms =>
-    refine ⟨inv_expire st hinv i k ms hc, ?_⟩
-    simp only [qstep, deliverAll, step]
-    exact domOK_exec _ _ rfl hdom
-  | clear i =>
-    refine ⟨inv_clear st hinv i, ?_⟩
-    simp only [qstep, deliverAll, step, srvCmd, Srv.exec, Srv.execPrim, KS.flush]
-    intro k hk; simp at hk
-  | drop i => exact ⟨inv_drop st hinv i, hdom⟩
-  | reconnect i => exact ⟨inv_reconnect st hinv i, hdom⟩
-  | adv dt =>
-    refine ⟨inv_adv st hinv hdom dt, ?_⟩
-    simp only [qstep, deliverAll, step, advance, Srv.adv]
-    exact domOK_adv hdom dt
-  | _ => simp [Covered] at hc
-
 theorem inv2_init (isEnc : String → Bool) : Inv2 (St.init isEnc) := by
   refine ⟨⟨fun i => ⟨rfl, fun _ => ⟨rfl, fun k => rfl⟩⟩, ?_⟩, ?_⟩
   · intro i k e _ hf; simp [St.init, Client.init, Client.lfind] at hf
   · intro k hk; simp [St.init, Srv.init, KS.init] at hk
-
-theorem inv2_qrun (ops : List Op) : ∀ (st : St), Inv2 st → (∀ op ∈ ops, Covered st.isEnc op) → Inv2 (qrun st ops).1 := by
-  induction ops with
-  | nil => intro st h _; exact h
-  | cons op ops ih =>
-    intro st h hc
-    simp only [qrun]
-    apply ih _ (inv2_qstep st h op (hc op (by simp)))
-    intro op' hop'
-    rw [qstep_isEnc st op (hc op (by simp))]
-    exact hc op' (by simp [hop'])
 
 /-- under agreement a read answers what the server holds -/
 theorem get_eq_server (st : St) (ha : Agree st) (i : Nat) (k : String) :
